@@ -53,7 +53,9 @@ def _classes(m, modname):
 
 
 def _methods(cls):
-    return {st.name: st for st in live_body(cls.body) if isinstance(st, ast.FunctionDef)}
+    # the guard-then-compare rules are written against the early-exit ('flat') spelling
+    from ..model import view
+    return {st.name: view(st, 'flat') for st in live_body(cls.body) if isinstance(st, ast.FunctionDef)}
 
 
 def _guard_of(fn, clsname):
@@ -587,8 +589,10 @@ def _float_branch(ctx, fn, v1, v2, tests):
     if len(br) != 1:
         ctx.error('C19.D3', '_approx_check: float branch not recognised (%d candidates)' % len(br))
         return
-    rets = [n for n in br[0].body if isinstance(n, ast.Return)]
-    if len(rets) != 1 or br[0].body[-1] is not rets[0]:
+    from ..model import view
+    fb = view(br[0], 'flat').body        # early-exit spelling inside the branch
+    rets = [n for n in fb if isinstance(n, ast.Return)]
+    if len(rets) != 1 or fb[-1] is not rets[0]:
         ctx.error('C19.D3', '_approx_check: float branch does not end in one return')
         return
     ret = rets[0]
@@ -680,7 +684,7 @@ def _float_branch(ctx, fn, v1, v2, tests):
 
 def _grid_eq(ctx, m):
     try:
-        fn = m.func('grid', 'Grid.__eq__')
+        fn = m.func('grid', 'Grid.__eq__', 'flat')
     except AnalysisError as e:
         ctx.error('C19.D3', str(e))
         return
